@@ -43,9 +43,18 @@ def dispatch_sites(py: PyRepo):
                     tests.setdefault(subj, []).extend((c, node) for c in classes)
                 if isinstance(node, ast.Match) and isinstance(node.subject, ast.Name):
                     subj = node.subject.id
+                    def class_pats(pt):
+                        """class patterns of a case: C(..), C(..) | D(..), C(..) as x"""
+                        if isinstance(pt, ast.MatchClass):
+                            return [pt]
+                        if isinstance(pt, ast.MatchOr):
+                            return [q for sub in pt.patterns for q in class_pats(sub)]
+                        if isinstance(pt, ast.MatchAs) and pt.pattern is not None:
+                            return class_pats(pt.pattern)
+                        return []
                     for case in node.cases:
-                        if isinstance(case.pattern, ast.MatchClass):
-                            tests.setdefault(subj, []).append((ast.unparse(case.pattern.cls), case.pattern))
+                        for cp in class_pats(case.pattern):
+                            tests.setdefault(subj, []).append((ast.unparse(cp.cls), cp))
             for subj, lst in tests.items():
                 ctors = [c for c, _n in lst if c in CONCRETE or c == 'cls']
                 if not ctors:
@@ -79,9 +88,11 @@ def instantiate_branch_sees_through(fn: ast.FunctionDef, subj: str) -> bool:
     removes one notation level, and a notation may be defined as an application of another notation, so the branch must re-enter
     the dispatcher (a call of this very function, or of a method of the expansion) or be a `while isinstance(..)` loop; expanding
     once and falling through to the concrete tests handles only one level"""
+    aliases = {subj}
+
     def simp_of_subj(x) -> bool:
         return isinstance(x, ast.Call) and isinstance(x.func, ast.Attribute) and x.func.attr == 'simplify' \
-            and isinstance(x.func.value, ast.Name) and x.func.value.id == subj and not x.args
+            and isinstance(x.func.value, ast.Name) and x.func.value.id in aliases and not x.args
 
     for node in ast.walk(fn):
         body = None
@@ -101,6 +112,11 @@ def instantiate_branch_sees_through(fn: ast.FunctionDef, subj: str) -> bool:
         if isinstance(node, ast.match_case) and isinstance(node.pattern, ast.MatchClass) \
                 and ast.unparse(node.pattern.cls) == 'Instantiate':
             body = node.body
+        if isinstance(node, ast.match_case) and isinstance(node.pattern, ast.MatchAs) and isinstance(node.pattern.pattern, ast.MatchClass) \
+                and ast.unparse(node.pattern.pattern.cls) == 'Instantiate':
+            body = node.body                      # `case Instantiate() as n`: n names the subject in this arm
+            if node.pattern.name:
+                aliases.add(node.pattern.name)
         if body is None:
             continue
         # locals of the branch that hold the expansion: `expanded = subj.simplify()`
@@ -118,6 +134,69 @@ def instantiate_branch_sees_through(fn: ast.FunctionDef, subj: str) -> bool:
                 if isinstance(x.func, ast.Attribute) and simp_of_subj(x.func.value):
                     return True
     return False
+
+
+def is_stripper(py: PyRepo, g: ast.FunctionDef) -> bool:
+    """a function of one pattern that returns it with every level of notation at the root expanded: every return is either the
+    parameter itself where it is known not to be an Instantiate, or the function applied again to `<parameter>.simplify()`; or the
+    loop form `while isinstance(p, Instantiate): p = p.simplify()` followed by `return p`"""
+    args = g.args.posonlyargs + g.args.args
+    if len(args) != 1 or g.args.vararg or g.args.kwarg or g.args.kwonlyargs:
+        return False
+    pn = args[0].arg
+    P = ('param', pn)
+    ISI = ('call', ('name', 'isinstance'), (P, ('name', 'Instantiate')), ())
+    body = [st for st in g.body if not (isinstance(st, ast.Expr) and isinstance(st.value, ast.Constant))]
+    if len(body) == 2 and isinstance(body[0], ast.While) and isinstance(body[1], ast.Return) and isinstance(body[1].value, ast.Name) \
+            and body[1].value.id == pn and ast.unparse(body[0].test) == f'isinstance({pn}, Instantiate)' and len(body[0].body) == 1 \
+            and ast.unparse(body[0].body[0]) == f'{pn} = {pn}.simplify()' and not body[0].orelse:
+        return True
+    try:
+        paths = PyEval().paths(g)
+    except Exception:  # noqa: BLE001
+        return False
+    rets = [q for q in paths if q.end[0] == 'return']
+    if not rets or len(rets) != len([q for q in paths if q.end[0] != 'raise']):
+        return False
+    base = rec = 0
+    for q in rets:
+        v = q.end[1]
+        conds = dict((c, b) for c, b in q.conds)
+        if v == P and conds.get(ISI) is False:
+            base += 1
+        elif v[0] == 'call' and v[1] == ('name', g.name) and len(v[2]) == 1 and not v[3] \
+                and v[2][0] == ('call', ('attr', P, 'simplify'), (), ()) and conds.get(ISI) is True:
+            rec += 1
+        else:
+            return False
+    return base >= 1 and rec >= 1
+
+
+def subject_is_stripped(py: PyRepo, fn: ast.FunctionDef, subj: str) -> bool:
+    """the tested local is the result of a notation-stripping function (is_stripper): no notation node ever reaches the tests"""
+    from ..core.localkeys import single_def
+    d = single_def(fn, subj)
+    if d is None:
+        # a parameter re-bound to its stripped self before anything else happens: `p = strip(p)` as the first statement, and no
+        # other binding of p in the function
+        body = [st for st in fn.body if not (isinstance(st, ast.Expr) and isinstance(st.value, ast.Constant))]
+        params = {a.arg for a in fn.args.posonlyargs + fn.args.args + fn.args.kwonlyargs}
+        stores = [n for n in ast.walk(fn) if isinstance(n, ast.Name) and n.id == subj and isinstance(n.ctx, (ast.Store, ast.Del))]
+        if subj in params and body and isinstance(body[0], ast.Assign) and len(body[0].targets) == 1 and isinstance(body[0].targets[0], ast.Name) \
+                and body[0].targets[0].id == subj and len(stores) == 1 and isinstance(body[0].value, ast.Call) and len(body[0].value.args) == 1 \
+                and isinstance(body[0].value.args[0], ast.Name) and body[0].value.args[0].id == subj:
+            d = body[0].value
+    if not (isinstance(d, ast.Call) and isinstance(d.func, ast.Name) and len(d.args) == 1 and not d.keywords):
+        return False
+    for mi in py.modules.values():
+        g = mi.functions.get(d.func.id)
+        if g is not None and is_stripper(py, g):
+            return True
+    return False
+
+
+def sees_through(py: PyRepo, fn: ast.FunctionDef, subj: str, has_inst: bool) -> bool:
+    return (has_inst and instantiate_branch_sees_through(fn, subj)) or subject_is_stripped(py, fn, subj)
 
 
 def first_test_order_ok(fn: ast.FunctionDef, subj: str) -> bool:
@@ -145,7 +224,7 @@ def t1(ctx, py: PyRepo):
             ctx.advisory(f'{mname}.{qn}: syntactic dispatcher ({SYNTACTIC[(mname, short)]})')
             continue
         ctors = sorted({c for c, _n in lst if c in CONCRETE or c == 'cls'})
-        ok = has_inst and instantiate_branch_sees_through(fn, subj)
+        ok = sees_through(py, fn, subj, has_inst)
         ctx.ob('dispatch-sees-through', f'{mname}.{qn}({subj})', ok,
                f'{qn} tests `{subj}` for the concrete constructor(s) {ctors} but has no branch that expands a notation node '
                f'({subj}.simplify()) first: a notation application whose expansion is such a constructor is treated differently '
@@ -171,7 +250,14 @@ def t2(ctx, py: PyRepo):
         params = tuple(('param', a.arg) for a in fn.args.args[1:])
         rets = [p for p in ev.paths(fn) if p.end[0] == 'return']
         want = ('call', ('attr', ('call', ('attr', SELF, 'simplify'), (), ()), op), params, ())
-        ok = bool(rets) and all(p.end[1] == want for p in rets)
+
+        def equals_delegation(p):
+            """the path returns the delegation's value: directly, or as the constant the path has just tested it to be"""
+            if p.end[1] == want:
+                return True
+            known = [b for c, b in p.conds if c == want]
+            return bool(known) and p.end[1] == ('const', known[-1])
+        ok = bool(rets) and all(equals_delegation(p) for p in rets)
         why = ''
         if not ok:
             # not the delegation form: equality with the expansion cannot be decided in general; two necessary conditions can
